@@ -15,7 +15,7 @@ res = {}
 try:
     for p in props:
         t0 = time.time()
-        env = dict(os.environ, VERIF_NO_PLAYBACK='1')
+        env = dict(os.environ, VERIF_NO_PLAYBACK='1', VERIF_EVIDENCE_DIR='/verif/.cache/evidence-mutation')
         r = subprocess.run([sys.executable, os.path.join(VERIF, 'tools', 'run_check.py'), p, '--tier', tier], capture_output=True, text=True, env=env, cwd=VERIF)
         lines = [l for l in r.stdout.split('\n') if l.startswith('VIOLATION') or l.startswith('UNDECIDED')]
         res[p] = {'rc': r.returncode, 'wall_s': round(time.time() - t0), 'lines': lines[:6]}
